@@ -52,7 +52,12 @@ def scene_for(case):
     n = len(pre)
     if case["where"] == "same":
         return [Glyph((0xE000,), vb, pre + [donor, filler, copy])], (0, n, 0, n + 2)
-    return [Glyph((0xE000,), vb, pre + [donor, filler]), Glyph((0xE001,), vb, [filler2, copy])], (0, n, 1, 1)
+    vb_b = vb
+    if case.get("vb2") == "wide":  # the other glyph has a wider viewBox of the same height (same scale, another placement in the em)
+        vb_b = (0, 0, case["vb"] * 1.5, case["vb"])
+    elif case.get("vb2") == "offset":
+        vb_b = (-0.1 * case["vb"], 0.07 * case["vb"], case["vb"], case["vb"])
+    return [Glyph((0xE000,), vb, pre + [donor, filler]), Glyph((0xE001,), vb_b, [filler2, copy])], (0, n, 1, 1)
 
 
 def _resolve(font, fmt, name):
@@ -127,8 +132,12 @@ def cases(tier):
         prod = itertools.product(list(OUTLINES), TRANSLATIONS, ROTATIONS, MIRRORS, VBS, WHERE, TOLS, FMTS)
     for o, t, r, mi, vb, w, tol, fmt in prod:
         out.append({"outline": o, "t": t, "rot": r, "mirror": mi, "vb": vb, "where": w, "tol": tol, "fmt": fmt})
+        base = out[-1]
         if tier != "quick" or (mi == "none" and vb == 100):
-            out.append(dict(out[-1], prelude="tiny_far"))
+            out.append(dict(base, prelude="tiny_far"))
+        if w == "other" and (tier != "quick" or (mi == "none" and vb == 100)):
+            out.append(dict(base, vb2="wide"))
+            out.append(dict(base, vb2="offset"))
     for o in OUTLINES:
         for w in WHERE:
             for fmt in FMTS:
@@ -147,7 +156,7 @@ def run(report, tier, only=None):
     listing.run(report, cs, execute, timeout=120, transitions_per_case=1)
     report.extra["outline_snap_margins_steps"] = {n: round(min(snapgrid.margin(d, t / 10) for t in TOLS), 3) for n, d in OUTLINES.items()}
     report.rule = (
-        "full product outline x translation x rotation x mirror x viewBox size x {same glyph, other glyph} x tolerance x {no prelude, an earlier tiny far-away shape with the same normalised outline from which the donor cannot be placed} x "
+        "full product outline x translation x rotation x mirror x viewBox size x {same glyph, other glyph} x tolerance x {no prelude, an earlier tiny far-away shape with the same normalised outline from which the donor cannot be placed} x {the other glyph has the same / a wider / a shifted viewBox} x "
         "{glyf_colr_0, glyf_colr_1, picosvg} (quick: a sub-product), each built with the real code; donor and copy must resolve "
         "to one outline glyph / one <path> (after flattening composites and <use>); with tolerance -1 they must be separate; "
         "distinct = format x shared/separate"
